@@ -318,6 +318,109 @@ theorem isValidChannelID_format (s : List Char) (h : isValidChannelID s = true) 
       exact ⟨h.1.1.1, h.1.1.2, h.1.2, h.2⟩
   · simp at h
 
+/-! ## wiring read off the AST: ante chain order, routing, node configuration, `ValidateModuleName`, `Byte32ToString` -/
+section Wiring
+
+def chainIdx (pfx : String) : Option Nat := cosmosAnteChain.findIdx? fun d => pfx.toList.isPrefixOf d.toList
+
+set_option maxRecDepth 8192 in
+/-- every transaction without extension options runs, in this order: reject embedded MsgEthereumTx → set up the gas meter →
+ValidateBasic → **DeductFeeDecorator with the node's `TxFeeChecker`** → signature verification; the fee decorator occurs
+exactly once and is handed `options.TxFeeChecker`, which `app.go` sets to `NewCheckTxFeees(<configured types>, <allowance>).Check` -/
+theorem cosmos_chain_checks_fee_before_signatures :
+    chainIdx "ethante.RejectMessagesDecorator" = some 0 ∧
+    (∃ a b c d, chainIdx "ante.NewSetUpContextDecorator(" = some a ∧ chainIdx "ante.NewValidateBasicDecorator(" = some b ∧
+      chainIdx "ante.NewDeductFeeDecorator(" = some c ∧ chainIdx "ante.NewSigVerificationDecorator(" = some d ∧ a < b ∧ b < c ∧ c < d) ∧
+    (cosmosAnteChain.filter fun d => "ante.NewDeductFeeDecorator(".toList.isPrefixOf d.toList) =
+      ["ante.NewDeductFeeDecorator(options.AccountKeeper, options.BankKeeper, options.FeegrantKeeper, options.TxFeeChecker)"] ∧
+    appWiresFeeChecker = true ∧ checkDelegates = true := by
+  refine ⟨by decide, ⟨2, 4, 8, 13, by decide, by decide, by decide, by decide, by decide, by decide, by decide⟩, by decide, by decide, by decide⟩
+
+/-- `NewAnteHandler` routes: the Ethereum extension option to the EVM handler, any other extension option is refused, a
+transaction without extension options takes the chain above — there is no third way into the mempool -/
+theorem ante_routing_total :
+    anteRouting = ["/ethermint.evm.v1.ExtensionOptionsEthereumTx=>eth", "default=>reject", "none=>cosmos"] := by decide
+
+/-- the pattern the model of `ValidateModuleName` was written for is the one in the source, anchored at both ends, and the
+function returns an error exactly when it does not match; `Byte32ToString` has the modelled shape -/
+theorem module_name_pattern :
+    moduleNameRegex = "[a-zA-Z][a-zA-Z0-9/]{1,32}" ∧ moduleNameAnchored = true ∧ moduleNameErrIffNoMatch = true ∧
+      byte32ToStringShape = true := by decide
+
+/-- what `ValidateModuleName` accepts: 2–33 bytes, a letter first, then letters, digits and `/` only — in particular no
+blank, no control byte, no byte ≥ 0x80 reaches a route lookup or a store key -/
+theorem validateModuleName_spec (bs : List Nat) :
+    validateModuleName bs = true ↔
+      ∃ h t, bs = h :: t ∧ isLetterB h = true ∧ 1 ≤ t.length ∧ t.length ≤ 32 ∧ ∀ b ∈ t, isAlnumSlashB b = true := by
+  cases bs with
+  | nil => simp [validateModuleName]
+  | cons h t =>
+    simp only [validateModuleName, Bool.and_eq_true, decide_eq_true_eq, List.all_eq_true, List.cons.injEq]
+    constructor
+    · rintro ⟨⟨⟨h1, h2⟩, h3⟩, h4⟩
+      exact ⟨h, t, ⟨rfl, rfl⟩, h1, h2, h3, h4⟩
+    · rintro ⟨h', t', ⟨rfl, rfl⟩, h1, h2, h3, h4⟩
+      exact ⟨⟨⟨h1, h2⟩, h3⟩, h4⟩
+
+theorem validateModuleName_bytes (bs : List Nat) (h : validateModuleName bs = true) :
+    2 ≤ bs.length ∧ bs.length ≤ 33 ∧ ∀ b ∈ bs, 47 ≤ b ∧ b ≤ 122 := by
+  obtain ⟨hd, tl, rfl, h1, h2, h3, h4⟩ := (validateModuleName_spec bs).1 h
+  refine ⟨by simp; omega, by simp; omega, ?_⟩
+  intro b hb
+  have hr : ∀ x, isAlnumSlashB x = true → 47 ≤ x ∧ x ≤ 122 := by
+    intro x hx
+    simp only [isAlnumSlashB, isLetterB, Bool.or_eq_true, Bool.and_eq_true, decide_eq_true_eq, beq_iff_eq] at hx
+    omega
+  rcases List.mem_cons.1 hb with rfl | hb
+  · exact hr _ (by simp [isAlnumSlashB, h1])
+  · exact hr _ (h4 b hb)
+
+example : validateModuleName [101, 116, 104] = true := by decide   -- "eth"
+example : validateModuleName [101] = false := by decide
+
+theorem dropWhile_replicate_zero (k : Nat) (l : List Nat) :
+    (List.replicate k 0 ++ l).dropWhile (· == 0) = l.dropWhile (· == 0) := by
+  induction k with
+  | zero => simp
+  | succ n ih => simp [List.replicate_succ, ih]
+
+/-- `Byte32ToString ∘ StrToByte32 = id` on every string of at most 32 bytes that does not end in a zero byte (the
+`_target` of `crossChain` / `bridgeCoinAmount` is decoded this way before `ParseFxTarget`) -/
+theorem byte32ToString_strToByte32 (bs out : List Nat) (h : strToByte32 bs = .ok out) (hl : bs.getLast? ≠ some 0) :
+    byte32ToString out = bs := by
+  unfold strToByte32 at h
+  split at h
+  · cases h
+  · simp only [Except.ok.injEq] at h
+    subst h
+    unfold byte32ToString
+    rw [List.reverse_append, List.reverse_replicate, dropWhile_replicate_zero]
+    cases hr : bs.reverse with
+    | nil =>
+      have : bs = [] := by simpa using hr
+      simp [this]
+    | cons x xs =>
+      have hx : bs.getLast? = some x := by
+        rw [List.getLast?_eq_head?_reverse, hr]; rfl
+      have hne : x ≠ 0 := by
+        intro h0; apply hl; rw [hx, h0]
+      have : (x :: xs).dropWhile (· == 0) = x :: xs := by
+        simp [hne]
+      rw [this, ← hr, List.reverse_reverse]
+
+/-- the decoded target never ends in a zero byte -/
+theorem byte32ToString_no_trailing_zero (bs : List Nat) : (byte32ToString bs).getLast? ≠ some 0 := by
+  unfold byte32ToString
+  rw [List.getLast?_reverse]
+  cases h : bs.reverse.dropWhile (· == 0) with
+  | nil => simp
+  | cons x xs =>
+    have := List.head_dropWhile_not (p := (· == 0)) (l := bs.reverse) (by rw [h]; simp)
+    simp only [h, List.head_cons, beq_iff_eq, Bool.not_eq_true, beq_eq_false_iff_ne, ne_eq] at this
+    simpa using this
+
+end Wiring
+
 /-! ## precompile `Run`: the decoded arguments satisfy what every construct inside `Run` needs
 
 `Gen/C20Run.lean` (typed translator) is regenerated on every run: the `Validate` body of every argument struct as a program,
